@@ -19,6 +19,7 @@ type nestInst struct {
 	m    []any // model content (stack) or single expression (condition; nil = none)
 	flag bool
 	tok  int
+	ro   bool // read-only: while set, nothing below is allowed to change
 }
 
 var nestClasses = []string{"prim", "nil", "stack", "alias", "ptr-alias", "cond", "cond(stack)", "aliasS", "ptr-stack", "nil-ptr-alias", "nil-ptr-stack", "ptr3-alias"}
@@ -95,7 +96,11 @@ type nestOp struct {
 func c13Ops(maxBatch int, classes []string, cond bool) []nestOp {
 	var ops []nestOp
 	ops = append(ops, nestOp{"SetNoNesting(true)", 0, nil, "set-true"}, nestOp{"SetNoNesting(false)", 0, nil, "set-false"}, nestOp{"SetNoNesting()", 0, nil, "toggle"}, nestOp{"NoNesting()", 0, nil, "toggle-deprecated"},
-		nestOp{"NoNesting(true)", 0, nil, "set-true-deprecated"}, nestOp{"NoNesting(false)", 0, nil, "set-false-deprecated"})
+		nestOp{"NoNesting(true)", 0, nil, "set-true-deprecated"}, nestOp{"NoNesting(false)", 0, nil, "set-false-deprecated"},
+		// other options switched around it (no business with nesting), and the read-only flag (while it is
+		// set, the option and the content stay as they are)
+		nestOp{"SetParen(true)", 0, nil, "other:paren-on"}, nestOp{"SetParen(false)", 0, nil, "other:paren-off"}, nestOp{"SetNoPadding()", 0, nil, "other:nopad-toggle"},
+		nestOp{"SetReadOnly(true)", 0, nil, "ro-on"}, nestOp{"SetReadOnly(false)", 0, nil, "ro-off"})
 	if cond {
 		for _, cl := range classes {
 			ops = append(ops, nestOp{"SetExpression(" + cl + ")", 0, []string{cl}, "setexpr"})
@@ -165,6 +170,38 @@ func c13Machine(c *Ctx, kind string, maxL, maxBatch int, classes []string, cond 
 			var out []string
 			bad := func(k, f string, a ...any) { out = append(out, k+"\x00"+fmt.Sprintf(f, a...)) }
 			switch o.kind {
+			case "other:paren-on", "other:paren-off", "other:nopad-toggle", "ro-on", "ro-off":
+				if in.isC {
+					switch o.kind {
+					case "other:paren-on":
+						in.c.SetParen(true)
+					case "other:paren-off":
+						in.c.SetParen(false)
+					case "other:nopad-toggle":
+						in.c.SetNoPadding()
+					case "ro-on":
+						in.c.SetReadOnly(true)
+						in.ro = true
+					case "ro-off":
+						in.c.SetReadOnly(false)
+						in.ro = false
+					}
+				} else {
+					switch o.kind {
+					case "other:paren-on":
+						in.s.SetParen(true)
+					case "other:paren-off":
+						in.s.SetParen(false)
+					case "other:nopad-toggle":
+						in.s.SetNoPadding()
+					case "ro-on":
+						in.s.SetReadOnly(true)
+						in.ro = true
+					case "ro-off":
+						in.s.SetReadOnly(false)
+						in.ro = false
+					}
+				}
 			case "set-true", "set-false", "toggle", "toggle-deprecated", "set-true-deprecated", "set-false-deprecated":
 				want := map[string]bool{"set-true": true, "set-false": false, "toggle": !in.flag, "toggle-deprecated": !in.flag, "set-true-deprecated": true, "set-false-deprecated": false}[o.kind]
 				if in.isC {
@@ -198,10 +235,16 @@ func c13Machine(c *Ctx, kind string, maxL, maxBatch int, classes []string, cond 
 						in.s.NoNesting()
 					}
 				}
-				in.flag = want
+				if !in.ro {
+					in.flag = want
+				}
 			case "pop":
 				gv, _ := in.s.Pop()
-				if len(in.m) > 0 {
+				if in.ro {
+					if check && gv != nil {
+						bad("pop", "Pop on a read-only stack returned %v", gv)
+					}
+				} else if len(in.m) > 0 {
 					wv := in.m[len(in.m)-1]
 					in.m = in.m[:len(in.m)-1]
 					if check && gv != wv {
@@ -215,6 +258,8 @@ func c13Machine(c *Ctx, kind string, maxL, maxBatch int, classes []string, cond 
 					v, sl := in.mk(cl)
 					vals = append(vals, v)
 					switch {
+					case in.ro:
+						// read-only: nothing is stored
 					case in.flag && sl:
 						anyStack = true // refused: it does not use up room either
 					case in.capk > 0 && len(in.m) >= in.capk:
@@ -230,7 +275,9 @@ func c13Machine(c *Ctx, kind string, maxL, maxBatch int, classes []string, cond 
 			case "setexpr":
 				v, sl := in.mk(o.classes[0])
 				in.c.SetExpression(v)
-				if v != nil && !(in.flag && sl) {
+				if in.ro {
+					// read-only: the expression stays
+				} else if v != nil && !(in.flag && sl) {
 					in.m = []any{v}
 				} else if check {
 					c.Nontrivial(name + "|" + o.name + "|" + fmt.Sprint(in.flag))
@@ -275,7 +322,8 @@ func c13Machine(c *Ctx, kind string, maxL, maxBatch int, classes []string, cond 
 			c.Outcome(fmt.Sprintf("s/%s/%v", showTypes(in.m), in.flag))
 			return out
 		},
-		MaxStates: 200000,
+		MaxStates:      200000,
+		NoopProbeDepth: 2,
 		Observe: func(in *nestInst) {
 			if in.isC {
 				observeAll(in.c)
